@@ -125,12 +125,37 @@ func buildFromDefinition(def *configDefinition, lc *loaderContext) (cfg *Config,
 		}
 	}
 
+	for k, g := range cfg.Pipelines {
+		if includesPipeline(g, g, make(map[*scheduler.ExecutionGraph]bool)) {
+			return nil, fmt.Errorf("pipeline %s includes itself", k)
+		}
+	}
+
 	cfg.Import = def.Import
 	cfg.Debug = def.Debug
 	cfg.Output = def.Output
 	cfg.Variables = cfg.Variables.Merge(variables.FromMap(def.Variables))
 
 	return cfg, nil
+}
+
+// includesPipeline reports whether target is reachable from g through pipeline stages
+func includesPipeline(g, target *scheduler.ExecutionGraph, seen map[*scheduler.ExecutionGraph]bool) bool {
+	if seen[g] {
+		return false
+	}
+	seen[g] = true
+
+	for _, stage := range g.Nodes() {
+		if stage.Pipeline == nil {
+			continue
+		}
+		if stage.Pipeline == target || includesPipeline(stage.Pipeline, target, seen) {
+			return true
+		}
+	}
+
+	return false
 }
 
 func defaultConfigVariables() variables.Container {
